@@ -12,7 +12,7 @@ import json
 import random
 from collections import Counter
 
-from lib import common, psess
+from lib import common, psess, ptrace
 from lib.proto import Relay
 
 THEOREMS_TIED = ["C13_eose_at_most_once", "C13_req_outcomes", "C13_query_runs_to_eose", "C13_limit", "C13_limit_refusal_intact",
@@ -159,6 +159,10 @@ def run(report, tier, seed):
         for i in range(10 if tier == "quick" else 250):
             for backend in ("sql", "kv"):
                 check_session(report, drv, backend, rng, keys, i)
+        # unsettled runs (REQ / CLOSE / EVENT / disconnect queued in bursts): the recorded schedule must be a run of the machine
+        for i in range(5 if tier == "quick" else 120):
+            for backend in ("sql", "kv"):
+                ptrace.run_trace_session(report, drv, backend, rng, keys, i, limit=3)
     finally:
         drv.close()
 
